@@ -11,6 +11,12 @@ TRUST = ("trusted base: rustc's MIR dump of the current tree, the mirsym interpr
 
 # id -> (level text, note, design ref)
 CLAIMED = {
+    "C12": ("Every expression tree of the quick space (18 393 trees: depth <= 2 with at most one compound operand per operator, plus both operands compound over a small inner "
+            "alphabet; literals 0, 1, 2; variables x, y; one memory cell) resp. depth <= 2 over the full alphabet (literals 0, 1, -1, 2, 0.5, pi; all five functions; both prefix "
+            "operators): the real simplifier is executed on the tree and z3 decides, for ALL complex values of the variables and all real values of the memory cell on which the "
+            "original has a finite value, that original and simplified form have the same value (exact arithmetic for + - * /, functions and ^ uninterpreted with the facts "
+            "x^0 = 1, x^1 = x, 1^x = 1, 0^x = 0 for x != 0; Ackermann's reduction to pure nonlinear real arithmetic); no new names, no pi in the result. One known finding (0^e).",
+            TRUST + "; constant folds by calculate_infix are exact rationals (stub), folds of functions / powers of literals end the path (outside the claim)", "5/C12"),
     "C25": ("One block of <= N instructions (quick 2, thorough 3) over three frames: blocking / non-blocking / padded-template pulses, captures, raw captures, delays, fences, frame "
             "updates, a gate with one of three calibrations or none, MOVE; qubits solver-chosen, dyadic durations: the real BasicBlock::as_schedule_seconds against a reference "
             "(expansion, documented durations, start = latest end of an earlier conflicting instruction, a source instruction's span = hull of its expansion, duration = latest end); "
